@@ -169,3 +169,11 @@ package twcc
 //@        && padLen <= 20 + 2 * len(f.rtcp.PacketChunks) + old(f.len) + (4 - (20 + 2 * len(f.rtcp.PacketChunks) + old(f.len)) % 4) % 4
 //@        && padding == ((20 + 2 * len(f.rtcp.PacketChunks) + old(f.len)) % 4 != 0) && len(f.rtcp.PacketChunks) < (1 << 31) && old(f.len) < (1 << 31)
 //@   loop 3 decreases (4 - padLen % 4) % 4
+//@
+//@ # ---- the feedback sender's RTP reader (properties C01, C02): transparent; a failed read is not recorded
+//@ func (*SenderInterceptor).BindRemoteStream$1
+//@   modifies *
+//@   ensures read_once: calls("reader.Read") == 1 && callarg("reader.Read", 0) == buf && callarg("reader.Read", 1) == attributes
+//@   ensures read_error_returned: callres("reader.Read", 2) != nil ==> result0 == 0 && result2 == callres("reader.Read", 2) && calls("send") == 0
+//@   ensures same_length: result2 == nil ==> result0 == callres("reader.Read", 0)
+//@   ensures recorded_at_most_once: calls("send") <= 1
